@@ -12,7 +12,10 @@ go build ./... || { echo BUILD-FAIL; git checkout -- .; git clean -fdq; exit 2; 
 if [ "${SKIPTESTS:-0}" != 1 ]; then
   env -u AWS_CA_BUNDLE go test -mod=mod -vet=off -count=1 -timeout 25m ./... 2>&1 | grep -v '^ok\|no test files' | head -20
 fi
+# (the evidence file describes runs on the unchanged tree: keep it across this run)
+cp /verif/evidence/$id.json /var/tmp/seedtest-evidence-$id.json 2>/dev/null
 cd /verif && ./check "$id" --tier "$tier" > /var/tmp/seedtest-$id.log 2>&1; rc=$?
+[ -f /var/tmp/seedtest-evidence-$id.json ] && mv /var/tmp/seedtest-evidence-$id.json /verif/evidence/$id.json
 grep -E '^(VIOLATION|KNOWN-FINDING|OK|INCONCLUSIVE)' /var/tmp/seedtest-$id.log | cut -c1-400 | head -30
 echo "exit=$rc"
 git -C /repo checkout -- . ; git -C /repo clean -fdq
